@@ -307,6 +307,12 @@ def c16_decls(tier):
                 else:
                     bb = aux.lit_bound(int(src), t)
                 out.append(mk('c16_%s_%s_lit_%s' % (t, k, tag), fam, t, validators=[Validator(k, bb)], derives=['Debug'], props=['C16']))
+        if t == 'i32':
+            # a type whose own name ends in `Error`
+            out.append(mk('c16_i32_less_named_error', 'int', t, validators=[Validator('less', aux.lit_bound(7, t))], derives=['Debug'], props=['C16']))
+        if t == 'u128':
+            out.append(mk('c16_u128_ge_lit_2p127', 'int', t, validators=[Validator('greater_or_equal', aux.lit_bound(1 << 127, t))], derives=['Debug'], props=['C16']))
+            out.append(mk('c16_u128_lt_lit_max', 'int', t, validators=[Validator('less', aux.lit_bound((1 << 128) - 1, t))], derives=['Debug'], props=['C16']))
         # several validators in one declaration, embedding through FromStr and serde
         bl, n1 = aux.sym_bound('lo', t)
         bu, n2 = aux.sym_bound('hi', t)
